@@ -138,6 +138,11 @@ def run_case(w, c):
             r2 = w.ExchangeRate(w.cur[c['b']['uc']], mk_value(c['b']['m']), w.cur[c['b']['tc']], mk_value(c['b']['t']))
             if c.get('via') == 'inv2':
                 r2 = r2.inverted().inverted()
+            elif c.get('via') == 'hashinv':
+                # a rate that has been hashed is inverted; the inverse is compared with an equal rate built afresh
+                hash(r2)
+                r2 = r2.inverted()
+                r1 = w.ExchangeRate(r2.unit_currency, r2._unit_multiple, r2.term_currency, r2._term_amount)
             ev['r1'], ev['r2'] = proj_rate(r1), proj_rate(r2)
             ev['eq'] = bool(r1 == r2)
             ev['heq'] = bool(hash(r1) == hash(r2) and (len({r1, r2}) == 1 or not ev['eq']))
@@ -363,6 +368,48 @@ def run_case(w, c):
                 ev['obs'] = o
             finally:
                 decimalfp.set_dflt_rounding_mode(ROUNDING.ROUND_HALF_EVEN)
+        elif op == 'price_late':
+            # the target compound unit is declared only AFTER a first (refused) attempt: the retry finds it
+            from quantity import Quantity, QuantityMeta, QuantityError
+            n = c['id'].split(':')[-1]
+            Mass = QuantityMeta('LMass' + n, (Quantity,), {}, ref_unit_symbol='lkg' + n)
+            PPM = QuantityMeta('LPrice' + n, (Quantity,), {}, define_as=w.Money / Mass)
+            src = PPM.derive_unit_from(w.cur[c['r']['uc']], Mass.ref_unit)
+            r = w.mk_rate(c['r'])
+            price = PPM(mk_amount([c['n'], c['d']], 'dec'), src)
+            o = dict(first_refused=False, st='err', value_ok=False, unit_ok=False)
+            try:
+                price * r if c['form'] == 'mul' else r * price
+            except QuantityError:
+                o['first_refused'] = True
+            except Exception as exc:
+                o['exc1'] = type(exc).__name__
+            tgt = PPM.derive_unit_from(w.cur[c['r']['tc']], Mass.ref_unit)
+            r2 = w.mk_rate(c['r']) if c.get('fresh') else r
+            try:
+                res = price * r2 if c['form'] == 'mul' else r2 * price
+                o.update(st='ok', unit_ok=res.unit is tgt and type(res) is PPM,
+                         value_ok=Fraction(res.amount) == Fraction(price.amount) * Fraction(r2.rate))
+            except Exception as exc:
+                o['exc2'] = type(exc).__name__
+            ev['obs'] = o
+        elif op == 'price_mass':
+            # mass * price (money per mass) in one currency, then in another: each stays in its own currency
+            PPM, units, Mass, mass = price_world(w, c['decl'])
+            o = dict(st='err', cur='', t='', exact=False)
+            try:
+                res = None
+                for (cu, a) in c['seq']:
+                    q = Mass(2, mass['kg'])
+                    pr = PPM(mk_amount(a, 'dec'), units[(cu, 'kg')])
+                    res = q * pr if c['form'] == 'mul' else pr * q
+                    last = (cu, a)
+                o.update(st='ok', cur=res.unit.symbol if hasattr(res, 'unit') else '?', t=type(res).__name__,
+                         exact=Fraction(res.amount) == 2 * Fraction(*last[1]))
+            except Exception as exc:
+                o['exc'] = type(exc).__name__
+            ev['obs'] = o
+            ev['want'] = c['seq'][-1][0]
         elif op == 'price_rate':
             ev['obs'] = price_case(w, c)
             ev['r'] = proj_rate(w.mk_rate(c['r']))
